@@ -229,6 +229,9 @@ func main() {
 	n := run.Scale(2500, 40000)
 	for i := 0; i < n; i++ {
 		thr := hx.Pick(r, thresholds)
+		if thr == 1<<20 && !r.Chance(1, 12) {
+			thr = 4096 // megabyte bodies are expensive for the Lean side: keep a few
+		}
 		if r.Chance(1, 8) {
 			thr = r.Intn(2000)
 		}
